@@ -431,6 +431,18 @@ func runK13(r *rng, n int) {
 			}
 			stepK4(be, c, r, 40, mk(40, map[string]interface{}{"Directory": uint64(2), "Offset": uint64(0), "Count": cnt}))
 		}
+		// the msize is negotiated down on the same connection after reads have happened: replies
+		// must fit the *new* msize (buffers pooled under the old one must not be used at their old size)
+		if eff >= 4096 && eff <= 1<<20 && r.chance(1, 2) {
+			ms2 := eff / 4
+			stepK4(be, c, r, 100, mk(100, map[string]interface{}{"MSize": ms2, "Version": "9P2000.L.Google.7"}))
+			for k := 0; k < 3; k++ {
+				cnt := []uint64{ms2 - 12, ms2 - 11, ms2 - 10, ms2, ms2 + 1, eff - 11, eff, 4 << 20}[r.intn(8)]
+				stepK4(be, c, r, 116, mk(116, map[string]interface{}{"fid": uint64(1), "Offset": uint64(r.intn(100)), "Count": cnt}))
+			}
+			eff = ms2
+			counts = []uint64{0, 1, eff - 12, eff - 11, eff - 10, eff - 1, eff, eff + 1, 4 << 20, 0xffffffff}
+		}
 		// reads through an xattr fid whose value is longer than a frame can carry
 		if eff >= 4096 && eff <= 65536 {
 			be.mu.Lock()
